@@ -18,7 +18,7 @@ func init() {
 			" A successfully evaluated literal is always compared, by Value.Equals; the binding map returned with a match is made for the alternative that matched; a `{ … }` body reaches the evaluator as the block itself." +
 			" Every case is handed to the pattern matcher (no pre-filter on the evaluator's side)." +
 			" After the subject is evaluated no successful return bypasses the loop over the cases; each match evaluation has a frame of its own." +
-			" The bindings of matched elements are merged unconditionally.",
+			" The bindings of matched elements are merged unconditionally. The body's lookup of a bound name starts at the innermost frame for every name.",
 		notDecided: "Compare semantics (C05); that bindings of a failed alternative are discarded is implied by the fresh map per alternative, which is checked, not the values bound.",
 	})
 }
@@ -192,6 +192,7 @@ func runC19(c *Ctx) {
 	c19EveryCaseTried(c)
 	c19AlternativesKept(c)
 	c19R5(c)
+	c.shared("R9", "C08/R2", "an identifier pattern binds the name for the case's body: the body's lookup of any name starts at the frame the bindings were stored into (the innermost one) and walks outwards, whatever the name looks like", keyHas("lookup-walk"), func(s *Ctx) { c08R2(s, discoverFrameModel(s.P)) })
 	c.shared("R8", "C10/R6", "the bindings of the case that matched are the ones its body sees: a name is resolved through the frames at every evaluation, never from a remembered earlier resolution", keyHas("evaluator-state", "syntax-tree-store", "interpreter-state"), func(s *Ctx) { interpreterState(s, "R6") })
 	c.shared("R7", "C08/R1", "the bindings of a case are visible in that case's body and end with it: every match evaluation pushes a frame of its own and pops it again (a push always makes a frame, a pop always removes one)", keyHas("pop-primitive", "push-", "balance "), func(s *Ctx) { c08R1(s, discoverFrameModel(s.P)) })
 	c.shared("R6", "C15/R6", "a literal pattern matches when subject == literal: the matcher's equality verdict excludes unset operands like the == operator does", func(o Obligation) bool { return !strings.Contains(o.Key, "getArrayPrototype") }, func(s *Ctx) { equalityAgreement(s, "R6") })
